@@ -280,4 +280,18 @@ def run_library(inputs, registry, cmps, job, dict_fields=(), dict_regex=()):
             stages.render_impl(reg, dict(job, layout=job["renderFirst"]))
         except Exception:  # noqa
             pass
+    if job.get("structureReuse") and job.get("convertUnicode", True):
+        # ONE structure (compose_models result) rendered twice: first without unicode conversion, then as asked — class
+        # names change in between, every reference of the second text must follow
+        from json_to_models.models.base import generate_code
+        from json_to_models.models.structure import compose_models, compose_models_flat
+        fn = compose_models if job.get("layout", "flat") == "nested" else compose_models_flat
+        structure = fn(reg.models_map)
+        first = dict(job, convertUnicode=False, omitDefaults=False)
+        try:
+            generate_code(structure, stages.GENERATORS[job["fw"]], class_generator_kwargs=stages.job_kwargs(first))
+        except Exception:  # noqa
+            pass
+        return reg, generate_code(structure, stages.GENERATORS[job["fw"]], class_generator_kwargs=stages.job_kwargs(job) or None,
+                                  preamble=job.get("preamble"))
     return reg, stages.render_impl(reg, job)
